@@ -236,13 +236,36 @@ impl VisitMut for OptChainVisitor<'_> {
                     }
                 }
 
-                expr.visit_mut_children_with(self);
+                self.visit_mut_chain_link(expr);
             }
 
             _ => {
-                expr.visit_mut_children_with(self);
+                self.visit_mut_chain_link(expr);
             }
         };
+    }
+}
+
+impl OptChainVisitor<'_> {
+    /*
+     * Follows the chain itself (object of a member access, callee of a call) and nothing else:
+     *  optional chains found in arguments or computed keys are expressions of their own, with their
+     *  own short-circuit, and must not be lowered as part of this one.
+     */
+    fn visit_mut_chain_link(&mut self, expr: &mut Expr) {
+        match expr {
+            Expr::OptChain(opt_chain_expr) => match &mut *opt_chain_expr.base {
+                OptChainBase::Call(call_expr) => call_expr.callee.visit_mut_with(self),
+                OptChainBase::Member(member_expr) => member_expr.obj.visit_mut_with(self),
+            },
+            Expr::Member(member_expr) => member_expr.obj.visit_mut_with(self),
+            Expr::Call(call_expr) => {
+                if let Callee::Expr(callee) = &mut call_expr.callee {
+                    callee.visit_mut_with(self);
+                }
+            }
+            _ => {}
+        }
     }
 }
 
